@@ -62,7 +62,7 @@ ExplainingDev(s, ev) ==
 
 CheckStep(s, ev) ==
   LET r == Exec(s, ev.ast, ev.idx) IN
-  IF Matches(s, ev, r) THEN TRUE
+  IF \E x \in ExecAlts(s, ev.ast, ev.idx) : Matches(s, ev, x) THEN TRUE
   ELSE LET d == ExplainingDev(s, ev) IN
        Verdict([l |-> l, ev |-> "step", kind |-> IF d = "" THEN "MISMATCH" ELSE "KNOWN",
                 dev |-> d, why |-> Explain(s, ev, r)])
@@ -130,10 +130,10 @@ MulDivKnown(ev, k) ==
 AdjBad(ev) ==
   FB(ev) \cup
   {k \in DOMAIN ev.axs :
-     LET r == Adjust(ev.op, ev.axs[k], ev.dx, ev.fin)
-         ef == NewFlags(ev.fin, r.def, r.fl)
-     IN ~(ev.oax[k] = r.ax /\ ev.odx[k] = r.dx /\
-          (ev.fl[k] & (65535 - r.undef)) = (ef & (65535 - r.undef)))}
+     ~ \E r \in AdjustAlts(ev.op, ev.axs[k], ev.dx, ev.fin) :
+         LET ef == NewFlags(ev.fin, r.def, r.fl)
+         IN ev.oax[k] = r.ax /\ ev.odx[k] = r.dx /\
+            (ev.fl[k] & (65535 - r.undef)) = (ef & (65535 - r.undef))}
 
 \* {"ev":"jcc","mn":..(as emitted source spelling),"cx":..,"fs":[flag words],"taken":[0/1/2..],"same":[0/1]}
 \*  taken[k]: 0 = NEXT, 1 = JMP target, 2 = anything else; same[k] = 1 iff no register/flag/memory changed
